@@ -105,6 +105,17 @@ def main():
             bad = f"converged with residual_norm {float(res.residual_norm)} >= residual_tolerance"
         elif abs(float(res.ground_state.norm()) - 1) > 1e-8:
             bad = f"returned vector has norm {float(res.ground_state.norm())}"
+        if not bad:
+            gs = res.ground_state
+            rq = torch.vdot(gs, h @ gs).real.item()
+            en = float(torch.as_tensor(res.ground_energy).real)
+            tr = float((h @ gs - en * gs).norm())
+            if abs(en - rq) > 1e-8 * (1 + abs(rq)):
+                bad = (f"returned energy {en!r} is not the Rayleigh quotient {rq!r} of the returned vector "
+                       f"(converged={res.converged}, happy_breakdown={res.happy_breakdown})")
+            elif abs(float(res.residual_norm) - tr) > 1e-6 * (1 + tr):
+                bad = (f"reported residual_norm {float(res.residual_norm):.6g} is not |H psi - E psi| = {tr:.6g} of the "
+                       f"returned pair (converged={res.converged})")
         if bad:
             print(f"REPRODUCED: {bad} ({where})")
             return 1
